@@ -322,6 +322,32 @@ func unifyGoroutines(ignore map[int64]bool) map[int64]string {
 	}
 }
 
+// propagationGoroutines returns the goroutines the context package parks to carry a cancellation from
+// a parent context of a foreign type to a derived one. In this harness only the unifier derives
+// contexts from the caller's context, so each of them stands for a derived context that is still live.
+func propagationGoroutines() []string {
+	for {
+		n := runtime.Stack(stackBuf, true)
+		if n < len(stackBuf) {
+			var out []string
+			for _, block := range strings.Split(string(stackBuf[:n]), "\n\n") {
+				if strings.Contains(block, "context.(*cancelCtx).propagateCancel") {
+					out = append(out, block)
+				}
+			}
+			return out
+		}
+		stackBuf = make([]byte, 2*len(stackBuf))
+	}
+}
+
+// opaqueCtx is a caller's context of a type the context package does not know (an application's own
+// wrapper): deriving a cancellable context from it costs a goroutine until the derived context is cancelled.
+type opaqueCtx struct{ context.Context }
+
+// Value answers nothing: in particular the context package cannot find a context of its own inside.
+func (opaqueCtx) Value(any) any { return nil }
+
 // ---------------------------------------------------------------------------------------
 // harness-wide state
 
@@ -454,6 +480,7 @@ func (c *hookCtx) Done() <-chan struct{} {
 }
 
 type sched struct {
+	opaque      bool // the caller's context is of a foreign type (and is not cancelled before the verdicts)
 	hookResumed bool
 	hook        *hookCtx // non-nil: the second answer and the cancellation are placed inside the unifier's next look at the context
 	h           *harness
@@ -972,6 +999,32 @@ func (s *sched) execute() {
 		}
 	}
 
+	if s.opaque && !s.cancelIssued && s.returned {
+		// Both members have answered, the call has returned and what it returned is closed, and the caller's
+		// context is still live (it may stay so for as long as the program runs): no goroutine is left
+		// parked on behalf of this call - also none of those the context package keeps for a derived
+		// context that nobody cancelled.
+		both := true
+		for x := 0; x < 2; x++ {
+			if _, _, calls := s.m[x].snapshot(); calls > 0 {
+				select {
+				case <-s.m[x].returned:
+				default:
+					both = false
+				}
+			}
+		}
+		if both {
+			key := s.key("goroutine-leak") + "/context-propagation"
+			var left []string
+			if h.eventually("goroutine-leak", key, func() bool { left = propagationGoroutines(); return len(left) == 0 }) {
+				run.Count("goroutines/no_context_propagation_left", 1)
+			} else {
+				s.violate(key, fmt.Sprintf("%d goroutine(s) of the context package are still parked for contexts derived from the caller's (live, foreign-typed) context after both members returned, the call returned %s and nothing it returned is open: a per-member context was never cancelled", len(left), describe(s.res)),
+					map[string]any{"goroutines": left})
+			}
+		}
+	}
 	if s.hook != nil && !s.hookResumed {
 		s.hook.armed.Store(false)
 		close(s.hook.resume)
@@ -1119,6 +1172,11 @@ func main() {
 			s.flip = rng.IntN(2) == 0
 			s.gap = []int{0, 300, 3000, 30000}[rng.IntN(4)]
 			s.parent, s.cancelFn = context.WithCancel(context.Background())
+			if rep%8 == 5 && c.cancel == cNever && c.style == stPrompt && !s.loose {
+				s.parent = opaqueCtx{s.parent}
+				s.opaque = true
+				run.Count("variant/foreign_typed_caller_context", 1)
+			}
 			if rep%4 == 0 && c.cancel == cNever && c.style == stPrompt {
 				// a caller whose context can never be cancelled (Background with values): releasing the chosen
 				// member's context after Close is then entirely the unifier's own doing
@@ -1170,6 +1228,7 @@ func main() {
 	}
 	run.FloorCounter("variant/hooked_context_look_reached", 5)
 	run.FloorCounter("variant/uncancellable_caller_context", 20)
+	run.FloorCounter("goroutines/no_context_propagation_left", 20)
 	run.FloorCounter("loser_reader/closed", 1)
 	run.FloorCounter("loser_reader/closed_after_error_return", 1)
 	run.FloorCounter("winner_ctx/live_on_return", 1)
